@@ -702,7 +702,8 @@ def check_site_ok(ctx: vlib.Ctx):
 # ---------------------------------------------------------------------------
 
 THEOREMS = ["C12_registry_invariant", "C12_registry", "C12_missing_tag", "C12_history_independent",
-            "C12_eligible_exact", "C12_nofield", "C12_nonunique_order_dependent"]
+            "C12_eligible_exact", "C12_nofield", "C12_trace_event", "C12_tag_unique_decidable",
+            "C12_nonunique_order_dependent"]
 
 
 def make_replay(h: Hist, k: int, what: str, exp: str, obs: str) -> dict:
